@@ -142,7 +142,7 @@ func main() {
 	sort.Strings(keys)
 	for _, k := range keys {
 		c := cs.Funcs[k]
-		if c.IsIface || c.Trusted {
+		if c.IsIface || (c.Trusted && !c.AtcallOnly) {
 			continue
 		}
 		if *prop != "all" && !hasProp(c.Props, *prop) {
